@@ -230,8 +230,7 @@ def plan(tier, seed):
             mcs = mcs_all
         elif cp in (0, 1, 3):
             mcs = [1, 0, 3]      # quick: Reserved0, BT.709, Reserved primaries x {standard, derived-from-primaries, Reserved} matrices
-        elif cp == 9:
-            mcs = [1]            # plus BT.2020 primaries with the BT.709 matrix (instances with a real gamut conversion need ~20 GB each)
+        # (instances whose primaries need a real gamut conversion take ~25 min and ~25 GB each: thorough tier only)
         else:
             mcs = []
         stubs = ("    #[kani::proof]\n    #[kani::unwind(6)]\n    #[kani::stub(yuvxyb_math::pow_exp::powf, stub_powf)]\n    #[kani::stub(yuvxyb_math::pow_exp::expf, stub_expf)]\n"
@@ -262,7 +261,7 @@ def plan(tier, seed):
                 multi += stubs + "    fn %s() { multi_p%d::<%s>(%d, %d) }\n" % (nm, cp, flag, cp, m)
                 hs.append(dict(name=nm, family="c14", obligation="YUV<->%s: symmetry, error names an offender, standard combinations succeed, config/dimensions as requested [primaries index %d, matrix index %d]" % ("linear RGB" if fam == "linear" else "XYB", cp, m),
                                timeout=1800, mem_gb=16 if cp in (0, 1, 3) else 34, covers=["reached"], replay=replay, what="multi", mi=m,
-                               sym="transfer symbolic over all 18 values; primaries index %d, matrix index %d (quick: Reserved0/BT.709/Reserved primaries x {standard, derived, Reserved} matrices and BT.2020 x BT.709; thorough: all 13 x 14)" % (cp, m)))
+                               sym="transfer symbolic over all 18 values; primaries index %d, matrix index %d (quick: Reserved0/BT.709/Reserved primaries x {standard, derived, Reserved} matrices; thorough: all 13 x 14)" % (cp, m)))
         txt += BODY.replace("@P@", str(cp)).replace("@P2@", str(cp2)).replace("@MULTI@", multi)
         for (fam, what, obl, covers) in fams:
             if fam == "k_c14_gamma_linear_both_bad" and cp in sup:
